@@ -310,9 +310,17 @@ def r43(ctx, prog):
         # the &mut / &&mut conversions forward to it
         for g in prog.fns:
             if g.name == 'from' and g.j.get('impl_self_ty') == 'value::value_type::ValueType' and g is not f[0] and path_endswith(g.j.get('impl_trait') or '', 'convert::From'):
-                ps = Interp(prog, opaque=lambda t: t is f[0]).paths(g, [SYM('v')])
-                good = len(ps) == 1 and ps[0][0][0] == 'app' and ps[0][0][2] == (SYM('v'),) and ps[0][0][1].startswith(f[0].path)
-                ctx.check(good, 'R4.3', 'ValueType::from:forwarder:' + ' '.join(g.j.get('inputs') or []), 'forward', 'reference variants of the conversion forward to From<&Value>', span=g.span)
+                if 'value::Value<' not in ' '.join(g.j.get('inputs') or []):
+                    continue
+                # decided by interpretation on each variant (references are transparent), so it does not matter whether the impl
+                # forwards to From<&Value>, to a shared inherent helper, or repeats the match
+                bad = []
+                for v in val['variants']:
+                    arg = ADT(val['path'], v['idx'], v['name'], [SYM('p')] if v['fields'] else [])
+                    ps = Interp(prog).paths(g, [arg])
+                    if not (len(ps) == 1 and is_adt(ps[0][0], 'ValueType', v['name'])):
+                        bad.append('%s -> %s' % (v['name'], [fmt(p_[0])[:60] for p_ in ps]))
+                ctx.check(not bad, 'R4.3', 'ValueType::from:forwarder:' + ' '.join(g.j.get('inputs') or []), 'forward', 'the reference variants of the conversion give the same type as From<&Value> for every value kind (deviations: %s)' % bad, span=g.span)
     e = prog.fn('error::EvalexprError::<NumericTypes>::expected_type')
     if e is None:
         ctx.unrecognised('R4.3', 'EvalexprError::expected_type', 'missing', 'not found')
